@@ -1,35 +1,23 @@
+import GdcVerif.Model.ParseCore
 /-
-  Marker layer of the JPEG-family decoders (C08/C09).
+  Marker layer of the JPEG-family decoders (C08/C09), following /repo HEAD (after the fix commits
+  1cb8f42 Build, b3192bf baseline selectors, 8718df8 SOS-before-SOF, f4e8601 SV1 selector,
+  879b6e2 lossless table ids).
 
   Hand-written, code-shaped, executable models of
-    /repo/jpeg/standard/reader.go     Reader.ReadMarker / ReadSegment
-    /repo/jpeg/standard/huffman.go    HuffmanTable.Build   (index expressions lookupTable[code+j], Values[p])
+    /repo/jpeg/standard/reader.go        Reader.ReadMarker / ReadSegment
+    /repo/jpeg/standard/huffman.go       HuffmanTable.Build   (lookupTable[code+j], Values[p])
     /repo/jpeg/lossless14sv1/decoder.go  Decode, parseSOF3, parseDHT, parseSOS, start of decodeScan
-    /repo/jpeg/lossless/decoder.go       Decode, parseSOF3, parseDHT, parseSOS   (header walk)
+    /repo/jpeg/lossless/decoder.go       Decode, parseSOF3, parseDHT, parseSOS, start of decodeScan
     /repo/jpeg/baseline/decoder.go       Decode, parseSOF, parseDQT, parseDHT, parseDRI, parseSOS, start of decodeScan
 
-  An index / division the Go code would panic on is an explicit `panic site` outcome.
-  Every model returns, besides its outcome, the list of allocation sizes (bytes) it performed (C09).
+  An index / division the Go code performs on stream-derived values stays an explicit
+  `panic site` branch in the model AFTER the guard the code now has; the theorems show the branch
+  dead.  Every model state carries the list of allocation sizes (bytes) performed so far (C09).
   Input bytes are `Nat`s (< 256 on every path the driver feeds).
 -/
 namespace JM
-
-abbrev Bytes := List Nat
-
-inductive Site
-  | huffLookup      -- HuffmanTable.Build: lookupTable[code+j]
-  | huffValues      -- HuffmanTable.Build: Values[p]
-  | sv1TableSel     -- lossless14sv1 decodeScan: d.dcTables[comp.dcTableSelector]
-  | blDivCeil       -- baseline decodeScan: DivCeil(d.width, d.mcuWidth) with mcuWidth = 0
-deriving Repr, DecidableEq
-
-inductive Outcome (α : Type) where
-  | ok (a : α)
-  | err
-  | panic (s : Site)
-  /-- the walk reached entropy-coded data whose decoding is not modelled -/
-  | scan
-deriving Repr, DecidableEq
+open PC
 
 /-! ## standard.Reader -/
 
@@ -47,7 +35,7 @@ def readMarker : Bytes → Option (Nat × Bytes)
       | none => none
       | some (m, rest') => if m = 0 then none else some (0xFF00 + m, rest')
 
-/-- `Reader.ReadSegment`: (payload, rest, bytes allocated); `none` is an error.
+/-- `Reader.ReadSegment`: (payload, rest); `none` is an error.
     The payload buffer `make([]byte, length-2)` is allocated before the data is known to be there. -/
 def readSegment : Bytes → Option (Bytes × Bytes)
   | hi :: lo :: rest =>
@@ -64,142 +52,6 @@ def readSegmentAlloc : Bytes → Nat
 
 def hasLength (m : Nat) : Bool :=
   !(m = 0xFFD8 || m = 0xFFD9 || (0xFFD0 ≤ m && m ≤ 0xFFD7))
-
-/-! ## HuffmanTable.Build -/
-
-/-- inner loops of the first part of Build for one code length `l` (0-based): for each of the `n`
-    codes: `code := p << (7-l)`; `lookupTable[code+j]` for `j < 1<<(7-l)`; `Values[p]`; `p++`.
-    The largest index written for code `p` is `(p+1)·2^(7-l) − 1`. -/
-def buildCodes (nvalues l : Nat) : Nat → Nat → Outcome Nat
-  | 0, p => .ok p
-  | n + 1, p =>
-    if (p + 1) * 2 ^ (7 - l) > 256 then .panic .huffLookup
-    else if p ≥ nvalues then .panic .huffValues
-    else buildCodes nvalues l n (p + 1)
-
-/-- `for l := 0; l < 8; l++` over the first eight BITS entries -/
-def buildLens (nvalues : Nat) : List Nat → Nat → Nat → Outcome Unit
-  | [], _, _ => .ok ()
-  | n :: bits, l, p =>
-    if l ≥ 8 then .ok ()
-    else match buildCodes nvalues l n p with
-      | .ok p' => buildLens nvalues bits (l + 1) p'
-      | .err => .err
-      | .panic s => .panic s
-      | .scan => .scan
-
-/-- `HuffmanTable.Build` (the min/max/valPtr part indexes fixed [16] arrays with l < 16 only) -/
-def build (bits : List Nat) (nvalues : Nat) : Outcome Unit := buildLens nvalues bits 0 0
-
-/-- one DHT table at the head of `data`: (tc, th, rest) -/
-def dhtTable (maxTh : Nat) (data : Bytes) : Outcome (Nat × Nat × Bytes) :=
-  match data with
-  | [] => .err
-  | tcTh :: rest =>
-    let tc := tcTh / 16
-    let th := tcTh % 16
-    if th > maxTh then .err
-    else if rest.length < 16 then .err
-    else
-      let bits := rest.take 16
-      let total := bits.foldl (· + ·) 0
-      let rest2 := rest.drop 16
-      if rest2.length < total then .err
-      else match build bits total with
-        | .ok () => .ok (tc, th, rest2.drop total)
-        | .err => .err
-        | .panic s => .panic s
-        | .scan => .scan
-
-/-- `parseDHT` body on the segment payload: the set of DC table ids defined (tc = 0) is folded
-    into `tables` (a list of 4 flags); AC tables (tc ≠ 0) go to `actables` -/
-def parseDHT (maxTh : Nat) (data : Bytes) (tables actables : List Bool) : Outcome (List Bool × List Bool) :=
-  match h : data with
-  | [] => .ok (tables, actables)
-  | _ :: _ =>
-    match hd : dhtTable maxTh data with
-    | .ok (tc, th, rest) =>
-      if hl : rest.length < data.length then
-        if tc = 0 then parseDHT maxTh rest (tables.set th true) actables
-        else parseDHT maxTh rest tables (actables.set th true)
-      else .err  -- unreachable: a table consumes at least 17 bytes (see `dhtTable_lt`)
-    | .err => .err
-    | .panic s => .panic s
-    | .scan => .scan
-termination_by data.length
-decreasing_by all_goals (subst h; exact hl)
-
-/-! ## lossless14sv1 -/
-
-structure Sv1 where
-  width : Nat := 0
-  height : Nat := 0
-  precision : Nat := 0
-  /-- (component id, dcTableSelector) -/
-  comps : List (Nat × Nat) := []
-  tables : List Bool := [false, false, false, false]
-  allocs : List Nat := []
-deriving Repr, DecidableEq
-
-/-- component loop of parseSOF3: each component allocates `make([]int, w*h)` and is then checked -/
-def sv1Comps (w h : Nat) : Nat → Bytes → List (Nat × Nat) → List Nat → Option (List (Nat × Nat)) × List Nat
-  | 0, _, acc, al => (some acc, al)
-  | n + 1, id :: hv :: _tq :: rest, acc, al =>
-    let al := al ++ [8 * (w * h)]
-    if hv / 16 ≠ 1 ∨ hv % 16 ≠ 1 then (none, al)
-    else sv1Comps w h n rest (acc ++ [(id, 0)]) al
-  | _ + 1, _, _, al => (none, al)
-
-/-- `Decoder.parseSOF3` on the segment payload -/
-def sv1SOF3 (st : Sv1) (data : Bytes) : Option Sv1 × List Nat :=
-  if data.length < 6 then (none, [])
-  else
-    let p := data.getD 0 0
-    if p < 2 ∨ p > 16 then (none, [])
-    else
-      let h := data.getD 1 0 * 256 + data.getD 2 0
-      let w := data.getD 3 0 * 256 + data.getD 4 0
-      let nc := data.getD 5 0
-      if w = 0 ∨ h = 0 then (none, [])
-      else if nc ≠ 1 ∧ nc ≠ 3 then (none, [])
-      else if data.length < 6 + nc * 3 then (none, [])
-      else
-        -- d.precision/height/width are stored before the component loop; a failing loop returns an error
-        match sv1Comps w h nc (data.drop 6) [] [8 * nc] with
-        | (none, al) => (none, al)
-        | (some cs, al) => (some { st with width := w, height := h, precision := p, comps := cs }, al)
-
-/-- selector loop of parseSOS: the high nibble of the Td/Ta byte is the DC table selector and is
-    checked against `len(d.dcTables)` = 4 (since repo commit f4e8601; before it the WHOLE byte was
-    stored unchecked and decodeScan indexed `dcTables[byte]`) -/
-def sv1Selectors : Nat → Bytes → List (Nat × Nat) → Option (List (Nat × Nat))
-  | 0, _, comps => some comps
-  | n + 1, cs :: td :: rest, comps =>
-    match comps.findIdx? (·.1 = cs) with
-    | none => none
-    | some k => if td / 16 ≥ 4 then none else sv1Selectors n rest (comps.set k (cs, td / 16))
-  | _ + 1, _, _ => none
-
-/-- `Decoder.parseSOS` on the segment payload -/
-def sv1SOS (st : Sv1) (data : Bytes) : Option Sv1 :=
-  match data with
-  | [] => none
-  | ns :: rest =>
-    if data.length < 1 + ns * 2 + 3 then none
-    else match sv1Selectors ns rest st.comps with
-      | none => none
-      | some cs => if data.getD (1 + ns * 2) 0 ≠ 1 then none else some { st with comps := cs }
-
-/-- what decodeScan does first, after collecting the scan bytes (collection cannot fail on a
-    bytes.Reader): for the first sample of the first component `d.dcTables[comp.dcTableSelector]`,
-    a 4-entry array.  No sample ⇒ straight to convertToPixels ⇒ ok. -/
-def sv1ScanStart (st : Sv1) : Outcome Unit :=
-  if st.width = 0 ∨ st.height = 0 then .ok ()
-  else match st.comps with
-    | [] => .ok ()
-    | (_, sel) :: _ =>
-      if sel ≥ 4 then .panic .sv1TableSel
-      else if st.tables.getD sel false then .scan else .err
 
 theorem skipFill_lt {bs : Bytes} {m : Nat} {rest : Bytes} (h : skipFill bs = some (m, rest)) :
     rest.length < bs.length := by
@@ -232,9 +84,10 @@ theorem readMarker_progress {bs : Bytes} {m : Nat} {rest : Bytes} (h : readMarke
         · simp only [hm, if_false] at h
           injection h with h; injection h with _ h2; subst h2; simp; omega
 
-/-- ReadSegment consumes at least the two length bytes, also for length = 2 -/
+/-- ReadSegment consumes at least the two length bytes, also for length = 2; the payload is
+    shorter than the input it was cut from -/
 theorem readSegment_progress {bs pl rest : Bytes} (h : readSegment bs = some (pl, rest)) :
-    rest.length + 2 ≤ bs.length := by
+    rest.length + 2 ≤ bs.length ∧ pl.length + 2 ≤ bs.length := by
   match bs, h with
   | hi :: lo :: tl, h =>
     unfold readSegment at h
@@ -243,87 +96,529 @@ theorem readSegment_progress {bs pl rest : Bytes} (h : readSegment bs = some (pl
     · cases h
     · split at h
       · cases h
-      · injection h with h; injection h with _ h2; subst h2
-        simp [List.length_drop] <;> omega
+      · injection h with h; injection h with h1 h2; subst h1; subst h2
+        simp [List.length_drop, List.length_take] <;> omega
 
-/-- the marker loop of `lossless14sv1.Decode` after SOI.  Terminates because every iteration
-    consumes at least the two marker bytes (`readMarker_progress`). -/
-def sv1Loop (st : Sv1) (bs : Bytes) : Outcome Sv1 × List Nat :=
-  match hm : readMarker bs with
-  | none => (.err, st.allocs)
+/-! ## one turn of a marker loop -/
+
+/-- what a segment handler answers -/
+inductive H (σ : Type) where
+  | cont (st : σ)
+  | stop (st : σ) (r : Res)
+
+/-- read the segment that follows a marker and hand (payload, unread bytes after it) to `h`;
+    `fail` records the allocation of a ReadSegment that failed after allocating -/
+def segTurn {σ : Type} (st : σ) (rest : Bytes) (fail : σ → Nat → σ) (h : Bytes → Nat → H σ) : Step σ :=
+  match readSegment rest with
+  | none => .done (fail st (readSegmentAlloc rest)) .err
+  | some (pl, rest2) =>
+    match h pl rest2.length with
+    | .cont st' => .more st' rest2
+    | .stop st' r => .done st' r
+
+theorem segTurn_lt {σ : Type} {st st' : σ} {rest r : Bytes} {fail : σ → Nat → σ} {h : Bytes → Nat → H σ}
+    (hs : segTurn st rest fail h = .more st' r) : r.length + 2 ≤ rest.length := by
+  unfold segTurn at hs
+  split at hs
+  · cases hs
+  · rename_i pl rest2 hr
+    split at hs
+    · injection hs with _ h2; subst h2; exact (readSegment_progress hr).1
+    · cases hs
+
+/-! ## HuffmanTable.Build -/
+
+/-- inner loops of the first part of Build for one code length `l` (0-based): for each of the `n`
+    codes the guard of commit 1cb8f42 (`(p+1)<<(7-l) > 256 || p >= len(Values)` → ErrInvalidDHT),
+    then `code := p << (7-l)`, `lookupTable[code+j]` for `j < 1<<(7-l)` (largest index
+    `(p+1)·2^(7-l) − 1`), `Values[p]`, `p++`. -/
+def buildCodes (nvalues l : Nat) : Nat → Nat → Except Res Nat
+  | 0, p => .ok p
+  | n + 1, p =>
+    if (p + 1) * 2 ^ (7 - l) > 256 ∨ p ≥ nvalues then .error .err
+    else if (p + 1) * 2 ^ (7 - l) - 1 ≥ 256 then .error (.panic .huffLookup)
+    else if p ≥ nvalues then .error (.panic .huffValues)
+    else buildCodes nvalues l n (p + 1)
+
+/-- `for l := 0; l < 8; l++` over the first eight BITS entries -/
+def buildLens (nvalues : Nat) : List Nat → Nat → Nat → Except Res Unit
+  | [], _, _ => .ok ()
+  | n :: bits, l, p =>
+    if l ≥ 8 then .ok ()
+    else match buildCodes nvalues l n p with
+      | .ok p' => buildLens nvalues bits (l + 1) p'
+      | .error e => .error e
+
+/-- `HuffmanTable.Build` (the min/max/valPtr part indexes fixed [16] arrays with l < 16 only) -/
+def build (bits : List Nat) (nvalues : Nat) : Except Res Unit := buildLens nvalues bits 0 0
+
+/-- one DHT table at the head of `data`: (tc, th, rest) -/
+def dhtTable (maxTh : Nat) (data : Bytes) : Except Res (Nat × Nat × Bytes) :=
+  match data with
+  | [] => .error .err
+  | tcTh :: rest =>
+    let tc := tcTh / 16
+    let th := tcTh % 16
+    if th > maxTh then .error .err
+    else if rest.length < 16 then .error .err
+    else
+      let bits := rest.take 16
+      let total := bits.foldl (· + ·) 0
+      let rest2 := rest.drop 16
+      if rest2.length < total then .error .err
+      else match build bits total with
+        | .ok () => .ok (tc, th, rest2.drop total)
+        | .error e => .error e
+
+theorem dhtTable_lt {maxTh : Nat} {data rest : Bytes} {tc th : Nat}
+    (h : dhtTable maxTh data = .ok (tc, th, rest)) : rest.length < data.length := by
+  unfold dhtTable at h
+  split at h
+  · cases h
+  · simp only at h
+    split at h
+    · cases h
+    · split at h
+      · cases h
+      · split at h
+        · cases h
+        · split at h
+          · injection h with h; injection h with _ h; injection h with _ h; subst h
+            simp [List.length_drop]; omega
+          · cases h
+
+/-- `parseDHT` body on the segment payload: DC table ids defined (tc = 0) are folded into
+    `dc`, the others into `ac` (lists of 4 flags) -/
+def parseDHT (maxTh : Nat) (data : Bytes) (dc ac : List Bool) : Except Res (List Bool × List Bool) :=
+  match data with
+  | [] => .ok (dc, ac)
+  | b :: tl =>
+    match hd : dhtTable maxTh (b :: tl) with
+    | .ok (tc, th, rest) =>
+      if tc = 0 then parseDHT maxTh rest (dc.set th true) ac
+      else parseDHT maxTh rest dc (ac.set th true)
+    | .error e => .error e
+termination_by data.length
+decreasing_by all_goals (exact dhtTable_lt hd)
+
+/-- number of table headers a DHT payload can hold: each allocates `Values` (≤ payload) -/
+def noTables : List Bool := [false, false, false, false]
+
+/-! ## lossless14sv1 -/
+
+structure Sv1 where
+  width : Nat := 0
+  height : Nat := 0
+  precision : Nat := 0
+  /-- (component id, dcTableSelector) -/
+  comps : List (Nat × Nat) := []
+  tables : List Bool := noTables
+  allocs : List Nat := []
+deriving Repr, DecidableEq
+
+/-- component loop of parseSOF3: each component allocates `make([]int, w*h)` and is then checked -/
+def sv1Comps (w h : Nat) : Nat → Bytes → List (Nat × Nat) → List Nat → Option (List (Nat × Nat)) × List Nat
+  | 0, _, acc, al => (some acc, al)
+  | n + 1, id :: hv :: _tq :: rest, acc, al =>
+    let al := al ++ [8 * (w * h)]
+    if hv / 16 ≠ 1 ∨ hv % 16 ≠ 1 then (none, al)
+    else sv1Comps w h n rest (acc ++ [(id, 0)]) al
+  | _ + 1, _, _, al => (none, al)
+
+/-- `Decoder.parseSOF3` on the segment payload: (new decoder state or error, allocations) -/
+def sv1SOF3 (st : Sv1) (data : Bytes) : Option Sv1 × List Nat :=
+  if data.length < 6 then (none, [])
+  else
+    let p := data.getD 0 0
+    if p < 2 ∨ p > 16 then (none, [])
+    else
+      let h := data.getD 1 0 * 256 + data.getD 2 0
+      let w := data.getD 3 0 * 256 + data.getD 4 0
+      let nc := data.getD 5 0
+      if w = 0 ∨ h = 0 then (none, [])
+      else if nc ≠ 1 ∧ nc ≠ 3 then (none, [])
+      else if data.length < 6 + nc * 3 then (none, [])
+      else
+        match sv1Comps w h nc (data.drop 6) [] [8 * nc] with
+        | (none, al) => (none, al)
+        | (some cs, al) => (some { st with width := w, height := h, precision := p, comps := cs }, al)
+
+/-- selector loop of parseSOS: the high nibble of the Td/Ta byte is the DC table selector and is
+    checked against `len(d.dcTables)` = 4 (commit f4e8601) -/
+def sv1Selectors : Nat → Bytes → List (Nat × Nat) → Option (List (Nat × Nat))
+  | 0, _, comps => some comps
+  | n + 1, cs :: td :: rest, comps =>
+    match comps.findIdx? (·.1 = cs) with
+    | none => none
+    | some k => if td / 16 ≥ 4 then none else sv1Selectors n rest (comps.set k (cs, td / 16))
+  | _ + 1, _, _ => none
+
+/-- `Decoder.parseSOS` on the segment payload -/
+def sv1SOS (st : Sv1) (data : Bytes) : Option Sv1 :=
+  match data with
+  | [] => none
+  | ns :: rest =>
+    if data.length < 1 + ns * 2 + 3 then none
+    else match sv1Selectors ns rest st.comps with
+      | none => none
+      | some cs => if data.getD (1 + ns * 2) 0 ≠ 1 then none else some { st with comps := cs }
+
+/-- what decodeScan does first, after collecting the scan bytes (collection cannot fail on a
+    bytes.Reader): for the first sample of the first component `d.dcTables[comp.dcTableSelector]`,
+    a 4-entry array.  No sample ⇒ straight to convertToPixels ⇒ ok. -/
+def sv1ScanStart (st : Sv1) : Res :=
+  if st.width = 0 ∨ st.height = 0 then .ok
+  else match st.comps with
+    | [] => .ok
+    | (_, sel) :: _ =>
+      if sel ≥ 4 then .panic .sv1TableSel
+      else if st.tables.getD sel false then .beyond else .err
+
+def Sv1.outBytes (st : Sv1) : Nat := st.width * st.height * st.comps.length * ((st.precision + 7) / 8)
+
+/-- one turn of the marker loop of `lossless14sv1.Decode` (after SOI) -/
+def sv1Step (st : Sv1) (bs : Bytes) : Step Sv1 :=
+  match readMarker bs with
+  | none => .done st .err
   | some (m, rest) =>
-    have hlt : rest.length < bs.length := by have := readMarker_progress hm; omega
+    let fail := fun (s : Sv1) (a : Nat) => { s with allocs := s.allocs ++ [a] }
     if m = 0xFFC3 then
-      match hs : readSegment rest with
-      | none => (.err, st.allocs ++ [readSegmentAlloc rest])
-      | some (pl, rest2) =>
-        have : rest2.length < bs.length := by have := readSegment_progress hs; omega
+      segTurn st rest fail fun pl _ =>
         match sv1SOF3 st pl with
-        | (none, al) => (.err, st.allocs ++ [pl.length] ++ al)
-        | (some st', al) => sv1Loop { st' with allocs := st.allocs ++ [pl.length] ++ al } rest2
+        | (none, al) => .stop { st with allocs := st.allocs ++ [pl.length] ++ al } .err
+        | (some st', al) => .cont { st' with allocs := st.allocs ++ [pl.length] ++ al }
     else if m = 0xFFC4 then
-      match hs : readSegment rest with
-      | none => (.err, st.allocs ++ [readSegmentAlloc rest])
-      | some (pl, rest2) =>
-        have : rest2.length < bs.length := by have := readSegment_progress hs; omega
-        match parseDHT 3 pl st.tables [false, false, false, false] with
-        | .ok (t, _) => sv1Loop { st with tables := t, allocs := st.allocs ++ [pl.length, pl.length] } rest2
-        | .err => (.err, st.allocs ++ [pl.length, pl.length])
-        | .panic s => (.panic s, st.allocs ++ [pl.length, pl.length])
-        | .scan => (.scan, st.allocs)
+      segTurn st rest fail fun pl _ =>
+        -- `Values` of every table is cut from the payload: at most the payload length in total
+        let st1 := { st with allocs := st.allocs ++ [pl.length, pl.length] }
+        match parseDHT 3 pl st.tables noTables with
+        | .ok (t, _) => .cont { st1 with tables := t }
+        | .error e => .stop st1 e
     else if m = 0xFFDA then
-      match readSegment rest with
-      | none => (.err, st.allocs ++ [readSegmentAlloc rest])
-      | some (pl, rest2) =>
+      segTurn st rest fail fun pl unread =>
         match sv1SOS st pl with
-        | none => (.err, st.allocs ++ [pl.length])
+        | none => .stop { st with allocs := st.allocs ++ [pl.length] } .err
         | some st' =>
-          -- scan bytes are copied into a buffer (≤ remaining input), then decoding starts
-          let al := st.allocs ++ [pl.length, rest2.length]
+          -- scan bytes are copied into a buffer (≤ unread input), then decoding starts
+          let st2 := { st' with allocs := st.allocs ++ [pl.length, unread] }
           match sv1ScanStart st' with
-          | .ok () => (.ok st', al ++ [st'.width * st'.height * st'.comps.length * ((st'.precision + 7) / 8)])
-          | .err => (.err, al)
-          | .panic s => (.panic s, al)
-          | .scan => (.scan, al)
+          | .ok => .stop { st2 with allocs := st2.allocs ++ [st'.outBytes] } .ok
+          | r => .stop st2 r
     else if m = 0xFFD9 then
-      (.ok st, st.allocs ++ [st.width * st.height * st.comps.length * ((st.precision + 7) / 8)])
+      .done { st with allocs := st.allocs ++ [st.outBytes] } .ok
     else if hasLength m then
-      match hs : readSegment rest with
-      | none => (.err, st.allocs ++ [readSegmentAlloc rest])
-      | some (pl, rest2) =>
-        have : rest2.length < bs.length := by have := readSegment_progress hs; omega
-        sv1Loop { st with allocs := st.allocs ++ [pl.length] } rest2
-    else sv1Loop st rest
-termination_by bs.length
+      segTurn st rest fail fun pl _ => .cont { st with allocs := st.allocs ++ [pl.length] }
+    else .more st rest
+
+theorem sv1Step_lt {st st' : Sv1} {bs r : Bytes} (h : sv1Step st bs = .more st' r) : r.length < bs.length := by
+  unfold sv1Step at h
+  split at h
+  · cases h
+  · rename_i m rest hm
+    have hp := readMarker_progress hm
+    simp only at h
+    repeat' split at h
+    all_goals first
+      | (have := segTurn_lt h; omega)
+      | (injection h with _ h2; subst h2; omega)
+      | cases h
 
 /-- `lossless14sv1.Decode` up to the first Huffman symbol of the scan -/
-def sv1Decode (bs : Bytes) : Outcome Sv1 × List Nat :=
+def sv1Decode (bs : Bytes) : Sv1 × Res :=
   match readMarker bs with
-  | none => (.err, [])
-  | some (m, rest) => if m ≠ 0xFFD8 then (.err, []) else sv1Loop {} rest
+  | none => ({}, .err)
+  | some (m, rest) => if m ≠ 0xFFD8 then ({}, .err) else run sv1Step sv1Step_lt {} rest
 
-/-! ## baseline: the scan entered before any frame header -/
+/-! ## jpeg/lossless (process 14, predictors 1–7) -/
 
-/-- `baseline.Decode` on a stream whose first segment after SOI is SOS with `ns = 0`
-    (`parseSOS` accepts it: no component to look up), modelled for exactly that shape:
-    decodeScan then evaluates `DivCeil(d.width, d.mcuWidth)` with `mcuWidth = 0`. -/
-def blSosFirst (bs : Bytes) : Outcome Unit :=
+structure Jll where
+  width : Nat := 0
+  height : Nat := 0
+  comps : Nat := 0
+  precision : Nat := 0
+  /-- `dcTableSelectors [3]int` -/
+  sels : List Nat := [0, 0, 0]
+  tables : List Bool := noTables
+  allocs : List Nat := []
+deriving Repr, DecidableEq
+
+/-- `Decoder.parseSOF3` (no allocation here: sample planes are allocated in decodeScan) -/
+def jllSOF3 (st : Jll) (data : Bytes) : Option Jll :=
+  if data.length < 6 then none
+  else
+    let p := data.getD 0 0
+    if p < 2 ∨ p > 16 then none
+    else
+      let h := data.getD 1 0 * 256 + data.getD 2 0
+      let w := data.getD 3 0 * 256 + data.getD 4 0
+      let nc := data.getD 5 0
+      if w = 0 ∨ h = 0 then none
+      else if nc ≠ 1 ∧ nc ≠ 3 then none
+      else some { st with width := w, height := h, comps := nc, precision := p }
+
+/-- selector loop of parseSOS: `data[2+component*2] >> 4`, checked against len(dcTables) = 4,
+    stored in `dcTableSelectors[component]` (a [3]int) -/
+def jllSelectors (data : Bytes) (ncomp : Nat) : Nat → List Nat → Except Res (List Nat)
+  | 0, sels => .ok sels
+  | k + 1, sels =>
+    let c := ncomp - (k + 1)
+    if 2 + c * 2 ≥ data.length then .error (.panic .jllSelIndex)
+    else
+      let sel := data.getD (2 + c * 2) 0 / 16
+      if sel ≥ 4 then .error .err
+      else if c ≥ 3 then .error (.panic .jllSelIndex)
+      else jllSelectors data ncomp k (sels.set c sel)
+
+/-- `Decoder.parseSOS` on the segment payload -/
+def jllSOS (st : Jll) (data : Bytes) : Except Res Jll :=
+  if data.length < 1 + st.comps * 2 + 3 then .error .err
+  else if data.getD 0 0 ≠ st.comps then .error .err
+  else
+    let pred := data.getD (1 + st.comps * 2) 0
+    if pred < 1 ∨ pred > 7 then .error .err
+    else match jllSelectors data st.comps st.comps st.sels with
+      | .ok s => .ok { st with sels := s }
+      | .error e => .error e
+
+/-- first table lookup of decodeScan: `d.dcTables[d.dcTableSelectors[0]]` for the first sample -/
+def jllScanStart (st : Jll) : Res :=
+  if st.width = 0 ∨ st.height = 0 ∨ st.comps = 0 then .ok
+  else
+    let sel := st.sels.getD 0 0
+    if sel ≥ 4 then .panic .jllTableSel
+    else if st.tables.getD sel false then .beyond else .err
+
+def jllStep (st : Jll) (bs : Bytes) : Step Jll :=
   match readMarker bs with
-  | none => .err
+  | none => .done st .err
   | some (m, rest) =>
-    if m ≠ 0xFFD8 then .err
-    else match readMarker rest with
-      | none => .err
-      | some (m2, rest2) =>
-        if m2 ≠ 0xFFDA then .scan
-        else match readSegment rest2 with
-          | none => .err
-          | some (pl, _) =>
-            match pl with
-            | [] => .err
-            | ns :: _ =>
-              if pl.length < 1 + ns * 2 + 3 then .err
-              else if ns ≠ 0 then .err   -- no component defined yet: lookup fails
-              else .panic .blDivCeil     -- mcuWidth = 0
+    let fail := fun (s : Jll) (a : Nat) => { s with allocs := s.allocs ++ [a] }
+    if m = 0xFFC3 then
+      segTurn st rest fail fun pl _ =>
+        match jllSOF3 st pl with
+        | none => .stop { st with allocs := st.allocs ++ [pl.length] } .err
+        | some st' => .cont { st' with allocs := st.allocs ++ [pl.length] }
+    else if m = 0xFFC4 then
+      segTurn st rest fail fun pl _ =>
+        let st1 := { st with allocs := st.allocs ++ [pl.length, pl.length] }
+        match parseDHT 3 pl st.tables noTables with
+        | .ok (t, _) => .cont { st1 with tables := t }
+        | .error e => .stop st1 e
+    else if m = 0xFFDA then
+      segTurn st rest fail fun pl unread =>
+        match jllSOS st pl with
+        | .error e => .stop { st with allocs := st.allocs ++ [pl.length] } e
+        | .ok st' =>
+          -- scan buffer, then `comps` sample planes of 8·w·h bytes
+          let st2 := { st' with allocs := st.allocs ++ [pl.length, unread] ++ List.replicate st'.comps (8 * (st'.width * st'.height)) }
+          match jllScanStart st' with
+          | .ok => .stop { st2 with allocs := st2.allocs ++ [st'.width * st'.height * st'.comps * ((st'.precision + 7) / 8)] } .ok
+          | r => .stop st2 r
+    else if m = 0xFFD9 then .done st .err
+    else if hasLength m then
+      segTurn st rest fail fun pl _ => .cont { st with allocs := st.allocs ++ [pl.length] }
+    else .more st rest
+
+theorem jllStep_lt {st st' : Jll} {bs r : Bytes} (h : jllStep st bs = .more st' r) : r.length < bs.length := by
+  unfold jllStep at h
+  split at h
+  · cases h
+  · rename_i m rest hm
+    have hp := readMarker_progress hm
+    simp only at h
+    repeat' split at h
+    all_goals first
+      | (have := segTurn_lt h; omega)
+      | (injection h with _ h2; subst h2; omega)
+      | cases h
+
+def jllDecode (bs : Bytes) : Jll × Res :=
+  match readMarker bs with
+  | none => ({}, .err)
+  | some (m, rest) => if m ≠ 0xFFD8 then ({}, .err) else run jllStep jllStep_lt {} rest
+
+/-! ## baseline -/
+
+structure BlComp where
+  id : Nat
+  h : Nat
+  v : Nat
+  tq : Nat
+  td : Nat := 0
+  ta : Nat := 0
+deriving Repr, DecidableEq
+
+structure Bl where
+  width : Nat := 0
+  height : Nat := 0
+  comps : List BlComp := []
+  mcuW : Nat := 0
+  mcuH : Nat := 0
+  dc : List Bool := noTables
+  ac : List Bool := noTables
+  allocs : List Nat := []
+deriving Repr, DecidableEq
+
+/-- `DivCeil(a, b)`; `none` = divide by zero -/
+def divCeil (a b : Nat) : Option Nat := if b = 0 then none else some ((a + b - 1) / b)
+
+/-- component loop of parseSOF -/
+def blComps : Nat → Bytes → List BlComp → Option (List BlComp)
+  | 0, _, acc => some acc
+  | n + 1, id :: hv :: tq :: rest, acc =>
+    let h := hv / 16
+    let v := hv % 16
+    if h = 0 ∨ h > 4 ∨ v = 0 ∨ v > 4 ∨ tq > 3 then none
+    else blComps n rest (acc ++ [{ id, h, v, tq }])
+  | _ + 1, _, _ => none
+
+def maxOf (f : BlComp → Nat) (cs : List BlComp) : Nat := cs.foldl (fun m c => max m (f c)) 1
+
+/-- per-component `comp.data = make([]byte, DivCeil(w·H, maxH·8)·DivCeil(h·V, maxV·8)·64)` -/
+def blCompAllocs (w h maxH maxV : Nat) : List BlComp → Except Res (List Nat)
+  | [] => .ok []
+  | c :: cs =>
+    match divCeil (w * c.h) (maxH * 8) with
+    | none => .error (.panic .blDivCeil)
+    | some cw =>
+      match divCeil (h * c.v) (maxV * 8) with
+      | none => .error (.panic .blDivCeil)
+      | some ch =>
+        match blCompAllocs w h maxH maxV cs with
+        | .ok al => .ok ((cw * ch * 64) :: al)
+        | .error e => .error e
+
+/-- `Decoder.parseSOF` -/
+def blSOF (st : Bl) (data : Bytes) : Except Res (Bl × List Nat) :=
+  if data.length < 6 then .error .err
+  else if data.getD 0 0 ≠ 8 then .error .err
+  else
+    let h := data.getD 1 0 * 256 + data.getD 2 0
+    let w := data.getD 3 0 * 256 + data.getD 4 0
+    let nc := data.getD 5 0
+    if w = 0 ∨ h = 0 then .error .err
+    else if nc ≠ 1 ∧ nc ≠ 3 then .error .err
+    else if data.length < 6 + nc * 3 then .error .err
+    else match blComps nc (data.drop 6) [] with
+      | none => .error .err
+      | some cs =>
+        let maxH := maxOf (·.h) cs
+        let maxV := maxOf (·.v) cs
+        -- mcuCols / mcuRows
+        match divCeil w (maxH * 8) with
+        | none => .error (.panic .blDivCeil)
+        | some _ =>
+          match divCeil h (maxV * 8) with
+          | none => .error (.panic .blDivCeil)
+          | some _ =>
+            match blCompAllocs w h maxH maxV cs with
+            | .ok al => .ok ({ st with width := w, height := h, comps := cs, mcuW := maxH * 8, mcuH := maxV * 8 }, (8 * nc) :: al)
+            | .error e => .error e
+
+/-- `Decoder.parseDQT`: `d.qtables[tq]` is a [4] array -/
+def blDQT (data : Bytes) : Res :=
+  match data with
+  | [] => .ok
+  | pqTq :: rest =>
+    let pq := pqTq / 16
+    let tq := pqTq % 16
+    if tq > 3 then .err
+    else if tq ≥ 4 then .panic .blQuantSel
+    else
+      let n := if pq = 0 then 64 else 128
+      if rest.length < n then .err
+      else blDQT (rest.drop n)
+termination_by data.length
+decreasing_by simp [List.length_drop]; omega
+
+/-- selector loop of parseSOS (commit b3192bf: td > 3 or ta > 3 → ErrInvalidSOS) -/
+def blSelectors : Nat → Bytes → List BlComp → Option (List BlComp)
+  | 0, _, comps => some comps
+  | n + 1, cs :: tdta :: rest, comps =>
+    match comps.find? (·.id = cs), comps.findIdx? (·.id = cs) with
+    | some c, some k =>
+      if tdta / 16 > 3 ∨ tdta % 16 > 3 then none
+      else blSelectors n rest (comps.set k { c with td := tdta / 16, ta := tdta % 16 })
+    | _, _ => none
+  | _ + 1, _, _ => none
+
+def blSOS (st : Bl) (data : Bytes) : Option Bl :=
+  match data with
+  | [] => none
+  | ns :: rest =>
+    if data.length < 1 + ns * 2 + 3 then none
+    else match blSelectors ns rest st.comps with
+      | none => none
+      | some cs => some { st with comps := cs }
+
+/-- start of decodeScan (commit 8718df8: mcuWidth = 0 → ErrInvalidSOF), then the first
+    `decodeBlock`: `d.dcTables[comp.dcTableSelector]` -/
+def blScanStart (st : Bl) : Res :=
+  if st.mcuW = 0 ∨ st.mcuH = 0 then .err
+  else match divCeil st.width st.mcuW with
+    | none => .panic .blDivCeil
+    | some cols =>
+      match divCeil st.height st.mcuH with
+      | none => .panic .blDivCeil
+      | some rows =>
+        if cols = 0 ∨ rows = 0 then .beyond
+        else match st.comps with
+          | [] => .beyond
+          | c :: _ =>
+            if c.td ≥ 4 then .panic .blTableSel
+            else if st.dc.getD c.td false then .beyond else .err
+
+def blStep (st : Bl) (bs : Bytes) : Step Bl :=
+  match readMarker bs with
+  | none => .done st .err
+  | some (m, rest) =>
+    let fail := fun (s : Bl) (a : Nat) => { s with allocs := s.allocs ++ [a] }
+    if m = 0xFFC0 then
+      segTurn st rest fail fun pl _ =>
+        match blSOF st pl with
+        | .ok (st', al) => .cont { st' with allocs := st.allocs ++ [pl.length] ++ al }
+        | .error e => .stop { st with allocs := st.allocs ++ [pl.length] } e
+    else if m = 0xFFDB then
+      segTurn st rest fail fun pl _ =>
+        match blDQT pl with
+        | .ok => .cont { st with allocs := st.allocs ++ [pl.length] }
+        | r => .stop { st with allocs := st.allocs ++ [pl.length] } r
+    else if m = 0xFFC4 then
+      segTurn st rest fail fun pl _ =>
+        let st1 := { st with allocs := st.allocs ++ [pl.length, pl.length] }
+        match parseDHT 3 pl st.dc st.ac with
+        | .ok (d, a) => .cont { st1 with dc := d, ac := a }
+        | .error e => .stop st1 e
+    else if m = 0xFFDD then
+      segTurn st rest fail fun pl _ =>
+        if pl.length ≠ 2 then .stop { st with allocs := st.allocs ++ [pl.length] } .err
+        else .cont { st with allocs := st.allocs ++ [pl.length] }
+    else if m = 0xFFDA then
+      segTurn st rest fail fun pl unread =>
+        match blSOS st pl with
+        | none => .stop { st with allocs := st.allocs ++ [pl.length] } .err
+        | some st' => .stop { st' with allocs := st.allocs ++ [pl.length, unread] } (blScanStart st')
+    else if m = 0xFFD9 then .done st .beyond   -- convertToPixels: not modelled
+    else if hasLength m then
+      segTurn st rest fail fun pl _ => .cont { st with allocs := st.allocs ++ [pl.length] }
+    else .more st rest
+
+theorem blStep_lt {st st' : Bl} {bs r : Bytes} (h : blStep st bs = .more st' r) : r.length < bs.length := by
+  unfold blStep at h
+  split at h
+  · cases h
+  · rename_i m rest hm
+    have hp := readMarker_progress hm
+    simp only at h
+    repeat' split at h
+    all_goals first
+      | (have := segTurn_lt h; omega)
+      | (injection h with _ h2; subst h2; omega)
+      | cases h
+
+def blDecode (bs : Bytes) : Bl × Res :=
+  match readMarker bs with
+  | none => ({}, .err)
+  | some (m, rest) => if m ≠ 0xFFD8 then ({}, .err) else run blStep blStep_lt {} rest
 
 end JM
